@@ -36,6 +36,13 @@ pub enum Op {
     HashTyped,
     /// both selectors at once: must be refused by usage error
     Conflict,
+    /// an invocation spelled out in full that must be refused (non-zero status, nothing on
+    /// stdout): both selectors in an unusual placement, or a selector that is no selector
+    Refuse {
+        argv: Vec<String>,
+        env: Vec<(String, String)>,
+        why: String,
+    },
 }
 
 impl Op {
@@ -66,6 +73,7 @@ impl Op {
             Op::HashMessage => "hash message",
             Op::HashTyped => "hash typeddata",
             Op::Conflict => "conflict",
+            Op::Refuse { .. } => "refuse",
         }
     }
 }
@@ -177,11 +185,18 @@ fn pad32(b: &[u8]) -> Option<[u8; 32]> {
 impl AcctCase {
     fn build(&self, v: &Variant, op: &Op) -> Cmd {
         let mut cmd = Cmd::default();
+        if let Op::Refuse { argv, env, .. } = op {
+            cmd.argv = argv.clone();
+            cmd.env = env.clone();
+            cmd.wplan = v.wplan.clone();
+            return cmd;
+        }
         let words: Vec<&str> = match op {
             Op::Address => vec!["address"],
             Op::Export => vec!["export"],
             Op::PublicKey => vec!["public-key"],
             Op::Conflict => vec!["address"],
+            Op::Refuse { .. } => vec![],
             Op::SignMessage | Op::SignRaw { .. } | Op::SignTx { .. } | Op::SignTyped => {
                 vec!["sign"]
             }
@@ -415,6 +430,24 @@ impl AcctCase {
                 );
             }
 
+            if let Op::Refuse { why, .. } = &self.op {
+                if o.status.ok() || !o.stdout.is_empty() {
+                    rep.violate(
+                        "C16",
+                        why,
+                        format!("refuse|{}", cmd.argv.first().cloned().unwrap_or_default()),
+                        format!(
+                            "`{}` (env {:?}) must be refused, yet status {:?}, stdout {:?}",
+                            cmd.argv.join(" ").chars().take(400).collect::<String>(),
+                            cmd.env.iter().filter(|(k, _)| k != "MNEMONIC").collect::<Vec<_>>(),
+                            o.status,
+                            o.stdout_str()
+                        ),
+                    );
+                }
+                rep.nontrivial = true;
+                continue;
+            }
             if self.op == Op::Conflict {
                 if o.status.ok() || !o.stdout.is_empty() {
                     rep.violate(
@@ -623,7 +656,7 @@ impl AcctCase {
                         ),
                     }
                 }
-                Op::Conflict => {}
+                Op::Conflict | Op::Refuse { .. } => {}
             }
         }
 
@@ -785,6 +818,70 @@ fn well_formed_transaction(rng: &mut Rng) -> Vec<u8> {
     br#"{"chainId":1,"nonce":0,"gasPrice":0,"gas":21000,"to":"0x0000000000000000000000000000000000000000","value":0,"data":"0x"}"#.to_vec()
 }
 
+/// Invocations that must be refused: the two selectors together in every placement around the
+/// sub-command words, and selectors that are not selectors.
+fn gen_refuse(rng: &mut Rng, phrase: &str) -> Op {
+    let digest = format!("0x{}", hex::encode(rng.bytes(32)));
+    // (words before the account options may go, words after)
+    let shapes: [(&[&str], Vec<String>); 5] = [
+        (&["address"], vec![]),
+        (&["export"], vec![]),
+        (&["public-key"], vec![]),
+        (&["sign"], vec!["raw".into(), digest.clone()]),
+        (&["sign"], vec!["message".into(), "/dev/null".into()]),
+    ];
+    let (head, tail) = &shapes[rng.usize_below(shapes.len())];
+    let mut env: Vec<(String, String)> = Vec::new();
+    let mut pre: Vec<String> = Vec::new(); // between the command word and its sub-command
+    let mut post: Vec<String> = Vec::new(); // after the sub-command and its positional
+    if rng.coin() {
+        pre.extend(["--mnemonic".to_string(), phrase.to_string()]);
+    } else {
+        env.push(("MNEMONIC".into(), phrase.to_string()));
+    }
+    let why;
+    if rng.coin() {
+        // both selectors, each before or after the sub-command (or through the environment)
+        why = "selectors-combined";
+        let idx = ["0", "1", "2", "7"][rng.usize_below(4)].to_string();
+        let path = ["m/44'/60'/0'/0/1", "m/0", "m/44'/60'/0'/0/0"][rng.usize_below(3)].to_string();
+        let mut place = |flag: &str, envname: &str, val: String, rng: &mut Rng| match rng.below(if tail.is_empty() { 2 } else { 3 }) {
+            0 => pre.extend([flag.to_string(), val]),
+            1 => env.push((envname.to_string(), val)),
+            _ => post.extend([flag.to_string(), val]),
+        };
+        place("--account-index", "ACCOUNT_INDEX", idx, rng);
+        place("--hd-path", "HD_PATH", path, rng);
+    } else {
+        why = "malformed-selector-accepted";
+        let bad_paths = [
+            "44'/60'/0'/0/0", "M/44'/60'/0'/0/0", "m", "m/", "m/44h/60h/0h/0/0", "m/44'/60'/0'/0/", "m//0", "m/44'/x/0", "m/4294967296",
+            "m/-1", "m/0x10", "m/44''/0", "m/1.0", "/m/0", "m\\0", "n/0",
+        ];
+        let bad_index = ["abc", "-1", "4294967296", "1.5", "0x1", "1e3", "²", " "];
+        if rng.chance(2, 3) {
+            let v = bad_paths[rng.usize_below(bad_paths.len())].to_string();
+            if rng.coin() {
+                pre.extend(["--hd-path".to_string(), v]);
+            } else {
+                env.push(("HD_PATH".into(), v));
+            }
+        } else {
+            let v = bad_index[rng.usize_below(bad_index.len())].to_string();
+            if rng.coin() {
+                pre.extend(["--account-index".to_string(), v]);
+            } else {
+                env.push(("ACCOUNT_INDEX".into(), v));
+            }
+        }
+    }
+    let mut argv: Vec<String> = head.iter().map(|s| s.to_string()).collect();
+    argv.extend(pre);
+    argv.extend(tail.iter().cloned());
+    argv.extend(post);
+    Op::Refuse { argv, env, why: why.to_string() }
+}
+
 pub fn gen_acct_case(rng: &mut Rng) -> AcctCase {
     let words = [12usize, 15, 18, 21, 24][rng.weighted(&[4, 1, 1, 1, 2])];
     let phrase = if rng.chance(1, 6) {
@@ -814,6 +911,7 @@ pub fn gen_acct_case(rng: &mut Rng) -> AcctCase {
         _ => Op::HashTyped,
     };
     let op = if rng.chance(1, 20) { Op::Conflict } else { op };
+    let op = if rng.chance(1, 9) { gen_refuse(rng, &phrase) } else { op };
     let input = match &op {
         Op::SignMessage | Op::HashMessage | Op::HashData => {
             let n = match rng.weighted(&[3, 3, 2, 1]) {
@@ -836,7 +934,11 @@ pub fn gen_acct_case(rng: &mut Rng) -> AcctCase {
         pipe: false,
     }];
     let n = input.len();
-    if op == Op::Conflict {
+    if matches!(op, Op::Refuse { .. }) {
+        // one execution; the base variant only carries an output plan
+        variants.clear();
+        variants.push(Variant { env_mask: 0, stdin: false, rplan: vec![], wplan: vec![], pipe: false });
+    } else if op == Op::Conflict {
         // every flag/env mix of the two selectors
         variants.clear();
         for m in 0..4u8 {
